@@ -320,6 +320,16 @@ func VerifC03Local() {
 		}
 		d, derr := c.DescribeTable(vCtx, &dynamodb.DescribeTableInput{TableName: aws.String(vTbl)})
 		nd.Assert(derr == nil && d.Table.ItemCount != nil && int(*d.Table.ItemCount) == len(m.rows), id+"-itemcount")
+		if derr == nil {
+			// the index is described as what it was declared as: a local index (p HASH, g RANGE)
+			nd.Assert(len(d.Table.GlobalSecondaryIndexes) == 0 && len(d.Table.LocalSecondaryIndexes) == 1, id+"-described-as-a-local-index")
+			if len(d.Table.LocalSecondaryIndexes) == 1 {
+				l := d.Table.LocalSecondaryIndexes[0]
+				nd.Assert(aws.ToString(l.IndexName) == "lsi" && len(l.KeySchema) == 2 &&
+					aws.ToString(l.KeySchema[0].AttributeName) == "p" && l.KeySchema[0].KeyType == types.KeyTypeHash &&
+					aws.ToString(l.KeySchema[1].AttributeName) == "g" && l.KeySchema[1].KeyType == types.KeyTypeRange, id+"-local-index-description")
+			}
+		}
 		vInvariant(c, id)
 	}
 	attrsOf := func(name string) map[string]string {
